@@ -4,9 +4,12 @@ import json,glob,os,subprocess
 V='/verif'
 ids=[json.loads(l)["id"] for l in open(f'{V}/properties.jsonl')]
 na=json.load(open(f'{V}/tools/na.json'))
+pending=json.load(open(f'{V}/tools/pending.json')) if os.path.exists(f'{V}/tools/pending.json') else []
 checks=[];claimed=set()
 for f in sorted(glob.glob(f'{V}/props/C*.json')):
-    p=json.load(open(f)); i=p['id']; claimed.add(i)
+    p=json.load(open(f)); i=p['id']
+    if i in pending: continue
+    claimed.add(i)
     checks.append({
       "property_id":i,
       "quick_cmd":f"./check {i} --tier quick",
@@ -26,6 +29,6 @@ m={"version":1,"setup_cmd":"./setup.sh",
  "engines":[{"name":"govc","path":"/verif/govc","serves_properties":sorted(claimed),"kind_free_text":"own deductive verifier for Go: contracts as //@ comments on the real functions, VC generation over go/ssa (bit-vector integers, Loc-datatype heap), obligations discharged by z3 5.1 / cvc5 / z3 4.8"}],
  "checks":checks,
  "notes":"See DESIGN.md. Fixes to /repo: see known_findings.txt (fixed: lines).",
- "not_applicable":[{"property_id":i,"reason":na.get(i,"check not built yet in this round (plan: DESIGN.md §10)")} for i in ids if i not in claimed]}
+ "not_applicable":[{"property_id":i,"reason":na.get(i,"check being stabilised in this round, not claimed yet (plan: DESIGN.md §10 "+i+")" if i in pending else "check not built yet in this round (plan: DESIGN.md §10)")} for i in ids if i not in claimed]}
 json.dump(m,open(f'{V}/MANIFEST.json','w'),indent=1)
 print("claimed:",sorted(claimed))
